@@ -229,7 +229,7 @@ def script_for(word):
 
 class C05(Check):
     pid = "C05"
-    lean_modules = ["MTProps.C05"]
+    lean_modules = ["MTProps.C05", "MTProps.CodeControl"]
 
     def body(self):
         rng = self.rng
